@@ -76,6 +76,9 @@ func litAtom(r rune, spell int, inBracket bool) atom {
 
 // rangeAtomSpelled writes an end point of a range with the given number of hexadecimal digits when it fits.
 func rangeAtomSpelled(r rune, spell int) atom {
+	if spell == 2 && r <= 0xFF {
+		return atom{fmt.Sprintf(`\x%02X`, r), r, 2}
+	}
 	if spell >= 4 && spell <= 8 && int64(r) < int64(1)<<(4*uint(spell)) {
 		short := spell
 		if spell == 8 {
